@@ -20,10 +20,10 @@ REQUIRED_COUNTERS = ['oracle:prolongation', 'oracle:knot_insertion', 'oracle:rep
 ASSUMPTIONS = ['uniform dyadic level meshes (as produced by make_knots/refine) for the hierarchical part', 'reference refinement matrices by Boehm knot insertion in floats']
 
 def cases(tier, seed):
-    n = {'quick': 260, 'thorough': 6000}[tier]
+    n = {'quick': 260, 'thorough': 30000}[tier]
     for i in range(n):
         yield {'kind': 'kv', 'seed': seed, 'idx': i}
-    n = {'quick': 110, 'thorough': 2400}[tier]
+    n = {'quick': 110, 'thorough': 12000}[tier]
     for i in range(n):
         yield {'kind': 'hs', 'seed': seed, 'idx': i}
 
